@@ -615,6 +615,39 @@ static void ensure_obj (void)
   add_ref (c16_ob, "c16");
 }
 
+/* the hash table of a restored mapping whose keys are all integers (their hash is the number itself, shifted):
+ *   tbl size=<buckets> unfilled=<m->unfilled> count=<m->count> <bucket>:<key>,<key>..  (non-empty buckets, chains head first) */
+static void dump_tbl (svalue_t * sv)
+{
+  if (sv->type != T_MAPPING)
+    return;
+  mapping_t *m = sv->u.map;
+  for (int i = 0; i <= (int) m->table_size; i++)
+    for (mapping_node_t * n = m->table[i]; n; n = n->next)
+      if (n->values[0].type != T_NUMBER)
+        return;
+  sb_t o = { 0, 0, 0 };
+  char tmp[64];
+  snprintf (tmp, sizeof tmp, "size=%d unfilled=%d count=%d", (int) m->table_size + 1, (int) m->unfilled, (int) m->count);
+  sb_puts (&o, tmp);
+  for (int i = 0; i <= (int) m->table_size; i++)
+    if (m->table[i])
+      {
+        snprintf (tmp, sizeof tmp, " %d:", i);
+        sb_puts (&o, tmp);
+        for (mapping_node_t * n = m->table[i]; n; n = n->next)
+          {
+            snprintf (tmp, sizeof tmp, "%s%lld", n == m->table[i] ? "" : ",", (long long) n->values[0].u.number);
+            sb_puts (&o, tmp);
+          }
+      }
+  fprintf (stderr, "VL tbl %s\n", o.b);
+  fflush (stderr);
+  free (o.b);
+}
+
+static int restore_dump_tbl = 0;	/* rv / rx: print the table of a restored integer-key mapping */
+
 static void do_restore_text (char *text)
 {
   svalue_t arg, ret;
@@ -633,6 +666,8 @@ static void do_restore_text (char *text)
       fprintf (stderr, "VL rest %s\n", o.b);
       fflush (stderr);
       free (o.b);
+      if (restore_dump_tbl)
+        dump_tbl (&ret);
       free_svalue (&ret, "c16");
     }
 }
@@ -904,7 +939,9 @@ static int c16_cmd (char *line)
       for (size_t i = 0; i < len; i++)
         t[i] = (char) (hexv (h[2 * i]) * 16 + hexv (h[2 * i + 1]));
       t[len] = 0;
+      restore_dump_tbl = 1;
       do_restore_text (t);
+      restore_dump_tbl = 0;
       free (t);
       return 1;
     }
